@@ -279,6 +279,82 @@ fn case2<T: Elem>(case: u64, args: &Args, ev: &mut Ev, log: &mut EventLog) {
     });
 }
 
+/// integer element types: with integer knots and data whose segment slopes are whole numbers
+/// the end line (and every interior line) is exact in integer arithmetic - extrapolated values
+/// must lie on it exactly, for every distance from the end knot
+fn integer_lines(ev: &mut Ev) {
+    use vh::ndarray::{Array1, Array2};
+    use vh::ndarray_interp::interp1d::{Interp1D, Linear};
+    use vh::ndarray_interp::interp2d::{Bilinear, Interp2D};
+    let mut rng = Rng::derive(6, "C06-integer-lines", &[0]);
+    macro_rules! run {
+        ($t:ty, $name:expr, $id0:expr) => {{
+            for round in 0..60u64 {
+                let n = 2 + rng.below(5);
+                let mut xs: Vec<$t> = Vec::new();
+                let mut ys: Vec<$t> = Vec::new();
+                let (mut x, mut y) = (rng.irange(-50, 50) as $t, rng.irange(-100, 100) as $t);
+                for _ in 0..n {
+                    xs.push(x);
+                    ys.push(y);
+                    let dx = 1 + rng.below(12) as $t;
+                    let slope = rng.irange(-9, 9) as $t;
+                    x += dx;
+                    y += slope * dx;
+                }
+                let line = |q: $t| -> $t {
+                    // the segment that contains q, or the nearest end segment
+                    let mut i = 0;
+                    while i + 2 < n && xs[i + 1] <= q {
+                        i += 1;
+                    }
+                    ys[i] + (ys[i + 1] - ys[i]) / (xs[i + 1] - xs[i]) * (q - xs[i])
+                };
+                let interp = Interp1D::builder(Array1::from(ys.clone())).x(Array1::from(xs.clone())).strategy(Linear::new().extrapolate(true)).build().unwrap();
+                let span = xs[n - 1] - xs[0];
+                let mut qs: Vec<$t> = (xs[0] - 3 * span - 7..=xs[0] + 2).collect();
+                qs.extend(xs[n - 1] - 2..=xs[n - 1] + 3 * span + 7);
+                qs.extend(xs.iter().copied());
+                for &q in &qs {
+                    ev.add("integer_line_queries", 1);
+                    let got = vh::outcome::guard(|| interp.interp_scalar(q).map_err(|e| e.to_string()));
+                    if got != Ok(Ok(line(q))) {
+                        ev.violation(
+                            "C06:value-extrapolated",
+                            &format!("{} Linear with extrapolation, x={xs:?}, y={ys:?}, q={q}: got {:?}, the (exact integer) line gives {}", $name, got, line(q)),
+                            $id0 + round,
+                            J::obj().set("elem", $name).set("q", format!("{q}")),
+                        );
+                        break;
+                    }
+                }
+                // Bilinear: z = y-line(x) + 3 * yy on a grid with unit y spacing
+                let yy: Vec<$t> = vec![0, 1, 2];
+                let g = Array2::from_shape_fn((n, 3), |(i, j)| ys[i] + 3 * yy[j]);
+                let b = Interp2D::builder(g).x(Array1::from(xs.clone())).y(Array1::from(yy.clone())).strategy(Bilinear::new().extrapolate(true)).build().unwrap();
+                for &q in qs.iter().step_by(3) {
+                    for qy in [-4 as $t, 0, 1, 2, 7] {
+                        ev.add("integer_line_queries", 1);
+                        let want = line(q) + 3 * qy;
+                        let got = vh::outcome::guard(|| b.interp_scalar(q, qy).map_err(|e| e.to_string()));
+                        if got != Ok(Ok(want)) {
+                            ev.violation(
+                                "C06:value-extrapolated",
+                                &format!("{} Bilinear with extrapolation, x={xs:?}, y=[0,1,2], z=line(x)+3y, q=({q},{qy}): got {:?}, exact {}", $name, got, want),
+                                $id0 + 500 + round,
+                                J::obj().set("elem", $name),
+                            );
+                            break;
+                        }
+                    }
+                }
+            }
+        }};
+    }
+    run!(i64, "i64", 8_800_000u64);
+    run!(i32, "i32", 8_810_000u64);
+}
+
 fn main() {
     let args = Args::parse("C06");
     let n = args.budget(900, 150000);
@@ -293,6 +369,10 @@ fn main() {
             (_, true) => case2::<f32>(case, &args, ev, log),
         }
     });
+    let mut ev = ev;
+    if args.blocks() {
+        integer_lines(&mut ev);
+    }
     ev.finish(
         &args,
         "Linear / CubicSpline (all non-periodic boundaries) / Bilinear with extrapolation on; finite \
